@@ -27,6 +27,7 @@ class Ring:
         self.call6.argtypes = [ctypes.c_uint64] * 7
         self.problems = []
         self.gf2 = cr == 'gf2Create'
+        self.m = 0
         if self.gf2:
             p = case['p']; m = p[0]
             self.mod = sum(1 << e for e in set(p) if e) | 1
@@ -36,8 +37,10 @@ class Ring:
             pb = A.buf(b''.join(int(x).to_bytes(8, 'little') for x in p))
             self.ok = L.boolean(cr, self.r, pb, st)
             self.exp_n = (m + W - 1) // W; self.exp_no = (m + 7) // 8
+            self.order = 1 << m
         else:
             self.mod = mod = int(case['mod'], 16); no = case['no']
+            self.order = mod
             keep = L.sz(cr + '_keep', no); deep = L.sz(cr + '_deep', no)
             self.r = A.buf(keep, 0xEE); st = A.buf(deep + GUARD, 0xA5)
             mb = A.buf(mod.to_bytes(no, 'little'))
@@ -233,7 +236,7 @@ def elements(R, tier):
     else:
         e = AC.elems(R.mod, R.n, R.W)
     e = list(dict.fromkeys(e))
-    lim = 16 if R.n <= 9 else 12
+    lim = 16 if R.n <= 2 else 12
     return e[:lim] if len(e) > lim else e
 
 def ring_key(case, op, cls):
@@ -245,6 +248,11 @@ def run_ring(case):
     bad = []; n = 0; risky = []
     def note(op, alias, x, y, r, e=0, m=0):
         if r and len(bad) < 8:
+            if op in ('inv', 'div') and r[0] == 'value':
+                if not R.gf2 and R.mod % 2 == 0:
+                    r = (r[0] + '/even-modulus', r[1])
+                elif R.gf2 and R.m % R.W == 0:
+                    r = (r[0] + '/m%W==0', r[1])
             bad.append((op, r[0], dict(op=op, alias=alias, x='%x' % x, y='%x' % y, e='%x' % e, m=m),
                         '%s %s%s(x=%x, y=%x%s): %s' % (describe(case), op, ' alias ' + alias if alias else '', x, y, ', e=%x [%d words]' % (e, m) if op == 'power' else '', r[1])))
     try:
@@ -274,7 +282,7 @@ def run_ring(case):
             for ai, a in enumerate(ALIAS[op]):
                 for i, x in enumerate(E):
                     for j, y in enumerate(E):
-                        if a and R.n > 4 and (i + j + ai) % 3:
+                        if a and R.n > 2 and (i + j + ai) % 3:
                             continue
                         if 'a=b' in a or 'd=a' in a:
                             if i != j:
@@ -285,7 +293,7 @@ def run_ring(case):
                             continue
                         note(op, a, x, y, R.do_op(op, a, x, y)); n += 1
         exps = [(0, 0), (1, 0), (1, 1), (1, 2), (1, 3), (1, (1 << R.W) - 1), (1, AC.fint('pe1', R.W)), (2, AC.fint('pe2', 2 * R.W) | 1 << (2 * R.W - 1)),
-                (3, AC.fint('pe3', 3 * R.W)), (2, 1 << R.W), (R.n, R.mod - 1 if not R.gf2 else (1 << R.m) - 1), (R.n, R.mod - 2 if not R.gf2 and R.mod > 2 else (1 << R.m) - 2)]
+                (3, AC.fint('pe3', 3 * R.W)), (2, 1 << R.W), (R.n, R.order - 1), (R.n, max(R.order - 2, 0))]
         if R.n <= 6:
             exps.append((5, AC.fint('pe5', 5 * R.W) | 1 << (5 * R.W - 1)))
         for a in ALIAS['power']:
@@ -356,8 +364,8 @@ def prepare(tier, N):
                         crs += ['zmCreateMont', 'gfpCreate']
                     if full and n >= 2 and mod in AC.moduli(n, W, 'crand'):
                         crs.append('zmCreateCrand')
-                    if n > 9 and not full:
-                        crs = ['zmCreate']
+                    if not full:
+                        crs = [c for c in crs if c in ('zmCreate', 'zmCreatePlain', 'zmCreateMont')] if n <= 9 else ['zmCreate']
                     for cr in crs:
                         _cases.append(dict(cfg=cfg, creator=cr, mod='%x' % mod, no=no, tier=tier, prime=mod in primes))
         ps = [p for p in GF2_STD if (p[0] + W - 1) // W <= N]
